@@ -363,6 +363,16 @@ func c30Evaluate(rec *evi.Recorder, c *Case, b c30Built, e Encoded, settings fun
 		sizeNote = "lib-size-larger"
 	}
 	rec.Class(fmt.Sprintf("%s:%s:TxSizeForFee:%s", era, path, sizeNote))
+	// The statement defines the size: length of the original encoding, minus one
+	// for a four-element envelope. When the library holds exactly the original
+	// bytes nothing excuses a different figure from its own size function (a too
+	// large one only over-rejects in the fee rule, which the one-directional fee
+	// oracle below cannot see).
+	if sizeErr == nil && cmp == "identical" && uint64(libSize) != size {
+		fail(fmt.Sprintf("C30:%s:%s:TxSizeForFee-differs-from-original-size:%s", era, path, sizeNote),
+			fmt.Sprintf("common.TxSizeForFee = %d for a transaction whose original encoding is %d bytes (four-element envelope: %v): want %d", libSize, L, b.Four, size),
+			map[string]any{"era": era.String(), "path": path, "style": b.Styled, "original_len": L, "ref_size": size, "lib_TxSizeForFee": libSize, "original": evi.Hex(b.Original)})
+	}
 
 	st, err := c.state()
 	if err != nil {
